@@ -419,9 +419,10 @@ func (x *Extractor) cacheGet(key extractorKey) (any, bool) {
 }
 
 // cacheStoreOrLoad publishes res under every reference in refs and returns res.
-// If the first reference is already cached — another goroutine decoded the same
-// object concurrently — it stores nothing and returns the existing value, so
-// every caller ends up with one shared object. The first writer for a reference
+// If one of the references is already cached — another goroutine decoded the
+// same object concurrently, possibly entering the reference chain at a later
+// point — it returns the existing value and only fills in the missing entries,
+// so every caller ends up with one shared object. The first writer for a reference
 // wins; later racers adopt its result and discard their own.
 //
 // Publishing this way (rather than waiting on an in-flight marker) keeps decode
@@ -430,11 +431,19 @@ func (x *Extractor) cacheGet(key extractorKey) (any, bool) {
 func (x *Extractor) cacheStoreOrLoad(refs []Reference, tp reflect.Type, res any) any {
 	x.mu.Lock()
 	defer x.mu.Unlock()
-	if v, ok := x.cache[extractorKey{ref: refs[0], tp: tp}]; ok {
-		return v
+	// All references in refs lead to the same object.  If any of them is
+	// already cached, adopt that value and never replace a published entry.
+	for _, ref := range refs {
+		if v, ok := x.cache[extractorKey{ref: ref, tp: tp}]; ok {
+			res = v
+			break
+		}
 	}
 	for _, ref := range refs {
-		x.cache[extractorKey{ref: ref, tp: tp}] = res
+		key := extractorKey{ref: ref, tp: tp}
+		if _, ok := x.cache[key]; !ok {
+			x.cache[key] = res
+		}
 	}
 	return res
 }
